@@ -984,3 +984,12 @@ mutant("pzx-building-reverse-view", "C11", PZ + "building.py", "            solv
 # equal heights cannot occur in a Latin row, so <= is the same visibility test
 variant("pzx-building-visible-le", "C11", PZ + "building.py", "fold_and([cells[j] < cells[i] for j in range(i)])", "fold_and([cells[j] <= cells[i] for j in range(i)])")
 mutant("pzx-doppelblock-sum-includes-ends", "C11", PZ + "doppelblock.py", "(fold_or(cells[:i] == 0) & fold_or(cells[i + 1 :] == 0)).cond(cells[i], 0)", "(fold_or(cells[:i] == 0) | fold_or(cells[i + 1 :] == 0)).cond(cells[i], 0)", "PZ-X")
+mutant("pzx-castle-wall-inside-flipped", "C11", PZ + "castle_wall.py", "                solver.ensure(is_inside[y, x] == grid_frame[0, x * 2 + 1])", "                solver.ensure(is_inside[y, x] != grid_frame[0, x * 2 + 1])", "PZ-X")
+mutant("pzx-castle-wall-arrow-includes-far-side", "C11", PZ + "castle_wall.py", "                related_edges = grid_frame.horizontal[y, x:]", "                related_edges = grid_frame.horizontal[y, :]", "PZ-X")
+mutant("pzx-shakashaka-clue-counts-empty", "C11", PZ + "shakashaka.py", "count_true(answer.four_neighbors(y, x) != 0) == problem[y][x]", "count_true(answer.four_neighbors(y, x) == 0) == problem[y][x]", "PZ-X")
+mutant("pzx-shakashaka-white-angle", "C11", PZ + "shakashaka.py", "            solver.ensure(count_true(is_white_angle) != 3)\n", "", "PZ-X")
+mutant("pzx-nurimisaki-2x2-white-allowed", "C11", PZ + "nurimisaki.py", "    solver.ensure(~(is_white[:-1, :-1] & is_white[1:, :-1] & is_white[:-1, 1:] & is_white[1:, 1:]))\n", "", "PZ-X")
+mutant("pzx-compass-left-counts-right", "C11", PZ + "compass.py", "            solver.ensure(count_true(division[:, :x] == i) == lf)", "            solver.ensure(count_true(division[:, x:] == i) == lf)", "PZ-X")
+mutant("pzx-geradeweg-vertical-uses-horizontal", "C11", PZ + "geradeweg.py", "                        line_length(reversed(list(grid_frame.vertical[:y, x])))\n                        + line_length(grid_frame.vertical[y:, x])", "                        line_length(reversed(list(grid_frame.vertical[:y, x])))\n                        + line_length(grid_frame.vertical[y + 1:, x])", "PZ-X")
+mutant("pzx-view-same-number-adjacent", "C11", PZ + "view.py", "    solver.ensure((has_number[:, :-1] & has_number[:, 1:]).then(nums[:, :-1] != nums[:, 1:]))\n", "", "PZ-X")
+mutant("pzx-fivecells-border-count-off", "C11", PZ + "fivecells.py", "                always_border = 4 - len(borders)", "                always_border = 3 - len(borders)", "PZ-X")
